@@ -80,6 +80,7 @@ type Val struct {
 	Builtin string
 	Iter    *Cell // range iterator state
 	IterOf  *Val
+	Poison  string // merge of incompatible (dead) values: an error only if used
 	LValue  bool // produced by a contract expression: the address stands for the value stored there
 }
 
